@@ -31,7 +31,7 @@ def lazy_routing(prog, rep):
     # E6.o
     rep.rule("E6.o", "LazyGraph::push routes CreateEdge → edge_statements, AddGraphNodeAttribute/AddEdgeAttribute → attr_statements, Print → print_statements; "
                      "LazyGraph::evaluate runs the three lists in that order, each completely")
-    push = [f for f in prog.fns.values() if f.self_path == "tsg::execution::lazy::statements::LazyGraph" and f.name == "push"]
+    push = [f for f in prog.shape_fns() if f.self_path == "tsg::execution::lazy::statements::LazyGraph" and f.name == "push"]
     if len(push) != 1:
         rep.violation("E6.o", "anchor-lost:LazyGraph::push", "", "not found")
     else:
@@ -68,7 +68,7 @@ def lazy_routing(prog, rep):
                         routes.setdefault(g.variant, set()).add("<dropped on some path>")
         want = {"CreateEdge": {"edge_statements"}, "AddGraphNodeAttribute": {"attr_statements"}, "AddEdgeAttribute": {"attr_statements"}, "Print": {"print_statements"}}
         rep.check(routes == want, "E6.o", "LazyGraph::push :: routing", f.loc(), "routing table as specified", "deferred statements are routed %s" % {k: sorted(v) for k, v in routes.items()})
-    ev = [f for f in prog.fns.values() if f.self_path == "tsg::execution::lazy::statements::LazyGraph" and f.name == "evaluate"]
+    ev = [f for f in prog.shape_fns() if f.self_path == "tsg::execution::lazy::statements::LazyGraph" and f.name == "evaluate"]
     if len(ev) != 1:
         rep.violation("E6.o", "anchor-lost:LazyGraph::evaluate", "", "not found")
     else:
@@ -140,7 +140,7 @@ def run(prog, rep):
     _run_c06_subset(prog, rep)
     # E6.a
     rep.rule("E6.a", "LazyScopedVariables::add: only the Unforced state accepts a new definition; Forced and Forcing return an error and leave the cell as it was")
-    sa = [f for f in prog.fns.values() if f.self_path == "tsg::execution::lazy::store::LazyScopedVariables" and f.name == "add"]
+    sa = [f for f in prog.shape_fns() if f.self_path == "tsg::execution::lazy::store::LazyScopedVariables" and f.name == "add"]
     if len(sa) != 1:
         rep.violation("E6.a", "anchor-lost:LazyScopedVariables::add", "", "not found")
     else:
